@@ -1101,6 +1101,8 @@ def special_family():
     add("entities-create", rows, entities=ent, settings=(["instance_name"], [["concat(${a}, '-', ${t})"]]))
     ent2 = (["dataset", "label", "entity_id", "update_if"], [["trees", "${t}", "${a}", "${n} = 1"]])
     add("entities-update", rows, entities=ent2)
+    add("lastsaved-only-entity-label", rows, entities=(["dataset", "label"], [["trees", "concat(${last-saved#a}, ${t})"]]))
+    add("lastsaved-only-instance-name", rows, settings=(["instance_name"], [["concat(${last-saved#t}, '-', ${a})"]]))
     # select from repeat
     for where in ("after", "inside", "nested"):
         rows = [{"type": "begin repeat", "name": "rep", "label": "R"}, {"type": "text", "name": "pname", "label": "P"}]
